@@ -127,6 +127,12 @@ class Opaque:
     return '<Opaque %s>' % self.tag
 
 
+class PermissiveBase:
+
+  def __init__(self, *args, **kwargs):
+    self.init_saw = (args, kwargs)
+
+
 def build(spec, register=True):
   """Create (and by default register) a probe from `spec`.
 
@@ -162,8 +168,11 @@ def build(spec, register=True):
       src = ('class %s:\n  """doc of %s"""\n  def __init__(self%s):\n    self.rec = VF_rec(VF_PID, %s)\n' %
              (p.name, p.name, sp, recv))
     else:
-      src = ('class %s:\n  """doc of %s"""\n  def __new__(cls%s):\n    o = object.__new__(cls)\n'
-             '    o.rec = VF_rec(VF_PID, %s)\n    return o\n' % (p.name, p.name, sp, recv))
+      # base_init: __new__ is the nearest construction method, a permissive __init__ is inherited from further up the MRO
+      base = '(VF_PermissiveBase)' if spec.get('base_init') else ''
+      g['VF_PermissiveBase'] = PermissiveBase
+      src = ('class %s%s:\n  """doc of %s"""\n  def __new__(cls%s):\n    o = object.__new__(cls)\n'
+             '    o.rec = VF_rec(VF_PID, %s)\n    return o\n' % (p.name, base, p.name, sp, recv))
     exec(src, g)  # pylint: disable=exec-used
     p.original = g[p.name]
   elif shape == 'method':
@@ -255,6 +264,8 @@ def gen_spec(rng, shapes=('fn', 'init', 'new', 'method'), apis=('configurable', 
   for kw in spec['kwonly']:
     if not kw[1]:
       kw[2] = None
+  if shape == 'new' and npos % 2 == 0:
+    spec['base_init'] = True
   if lists and rng.random() < 0.35:
     names = all_named(spec)
     if names:
